@@ -190,7 +190,7 @@ class FlatGen:
         r = self.r
         if not self.vectors and not self.matrices:
             return self.eq_scalar()
-        style = r.choice(["vec", "vec", "shift", "idxarith", "matcol", "matrow", "der", "reverse", "stride"])
+        style = r.choice(["vec", "vec", "shift", "idxarith", "matcol", "matrow", "der", "reverse", "stride", "twoshifts"])
         n = self.vlen
         i = r.choice("ijk")
         if style in ("vec", "der") and self.vectors:
@@ -215,6 +215,18 @@ class FlatGen:
             self.note_ops(g)
             self.m["eqs"].append(("for", i, num(2), None, num(n), [("eq", idx(v, var(i)), rhs)]))
             self.tags.add("core:for-shifted-index")
+        elif style == "twoshifts" and self.vectors and n >= 3:
+            # the same array with two different computed subscripts in one loop body: w[i + 1] and w[i - 1]
+            v = r.choice(self.vectors)
+            w = r.choice(self.vectors)
+            g = self.gen(i, None)
+            rhs = ("bin", r.choice(("-", "+")), ("bin", "*", num(r.randint(2, 5)), idx(w, ("bin", "+", var(i), num(1)))),
+                   idx(w, ("bin", "-", var(i), num(1))))
+            if r.random() < 0.5:
+                rhs = ("bin", "+", rhs, g.real(r.randint(0, 1)))
+            self.note_ops(g)
+            self.m["eqs"].append(("for", i, num(2), None, num(n - 1), [("eq", idx(v, var(i)), rhs)]))
+            self.tags.add("core:for-two-computed-subscripts-of-one-array")
         elif style == "idxarith" and self.vectors and n >= 3:
             v = r.choice(self.vectors)
             half = n // 2
@@ -422,6 +434,23 @@ class FlatGen:
             self.tags.add("core:function-multi-output")
         self.m["eqs"].append(e)
 
+    def eq_trivial(self):
+        """an equation that holds identically (its residual is the constant 0)."""
+        r = self.r
+        k = r.random()
+        if k < 0.4 and self.vectors:
+            v = r.choice(self.vectors)
+            j = r.randint(1, self.vlen)
+            self.m["eqs"].append(("eq", ("bin", "-", idx(v, j), idx(v, j)), num(0)))
+        elif k < 0.7:
+            s = var(r.choice(self.scalars))
+            self.m["eqs"].append(("eq", ("bin", "*", num(2), s), ("bin", "+", s, s)))
+        else:
+            s, t = var(r.choice(self.scalars)), var(r.choice(self.scalars))
+            inner = ("eq", ("bin", "-", t, t), num(0))
+            self.m["eqs"].append(("if", [(("bin", ">", s, num(1)), [inner])], [inner]))
+        self.tags.add("core:identically-true-equation")
+
     def pick_undetermined(self):
         c = [s for s in self.scalars if s not in self.determined] or self.scalars
         s = self.r.choice(c)
@@ -500,6 +529,8 @@ class FlatGen:
             self.eq_func()
         if "delay" in require:
             self.eq_delay()
+        if "trivial" in require:
+            self.eq_trivial()
         n_eq = r.randint(2, 7) if n_eq is None else n_eq
         templ = [self.eq_scalar] * 4 + [self.eq_bool, self.eq_if, self.eq_if, self.eq_for, self.eq_for,
                                         self.eq_for, self.eq_array, self.eq_array, self.eq_array,
